@@ -99,6 +99,8 @@ def progress(ctx):
     ctx.check(ok, dec_[0] if dec_ else lp, "every iteration strictly decreases n_bytes by len(data) (data is a non-empty slice of a refilled buffer)",
               "n_bytes is not decreased by len(data) on every iteration: the read loop may not terminate or over-reads")
     ctx.check(not any(isinstance(n, ast.Continue) for s in lp.body for n in walk_local(s)), lp, "no `continue` skips the decrement")
+    ctx.check(not any(isinstance(n, (ast.Break, ast.Return)) for s in lp.body for n in walk_local(s)), lp, "the loop is left only when enough bytes were produced or the stream ended (read(n) is never short before EOF)",
+              "_read_block leaves its loop early: read(n) returns fewer than n bytes although the stream has more (a BufferedIOBase must not do short reads)")
     # (3) _read_all
     ra = ZF(ctx, "_read_all")
     loops = _loops(ra)
@@ -132,10 +134,13 @@ def progress(ctx):
         and any(unparse(x) == unparse(sd[0].value.left) for x in sd[0].value.right.args)
     ctx.check(ok, sd[0] if sd else fl[0], "chunk step = B // min(B, itemsize) >= 1", "chunk step %s may be 0" % (unparse(sd[0].value) if sd else None))
     # undeclared loops in the load path
-    for q in ("_fill_buffer", "_read_block", "_read_all", "read", "seek", "_rewind"):
+    for q in ("_fill_buffer", "_read_block", "_read_all", "read", "seek", "_rewind", "readinto", "tell"):
         fn = ZF(ctx, q)
-        if q in ("read", "seek", "_rewind"):
-            ctx.check(not _loops(fn), fn, "%s has no loop of its own" % q, "undeclared while loop in %s" % q)
+        if q in ("read", "seek", "_rewind", "readinto", "tell"):
+            if _loops(fn):
+                # a loop without a declared variant can be neither discharged nor refuted: analysis error, not a violation
+                ctx.need(False, "undeclared while loop in %s.%s (no progress variant is declared for it)" % (Z, q))
+            ctx.ok(fn, "%s has no loop of its own" % q)
 
 
 def exact(ctx):
@@ -172,6 +177,13 @@ def eof_not_data(ctx):
     sz = [a for a in h.body if isinstance(a, ast.Assign) and "self._size" in stores_to(a)]
     ctx.check(bool(sz) and dotted(sz[0].value) == "self._pos", sz[0] if sz else h, "and records the stream size = current position")
     ctx.check(isinstance(h.body[-1], ast.Return) and is_const(h.body[-1].value, False), h, "and reports 'no more data' (never fabricates data)")
+    g0 = cfg_of(f)
+    mode_sets = [a for a in nodes_of_type(f, ast.Assign) if "self._mode" in stores_to(a) and dotted(a.value) == "_MODE_READ_EOF"]
+    for r in [r for r in nodes_of_type(f, ast.Return) if is_const(r.value, False)]:
+        conds = [(unparse(t), pol) for (_, t, pol) in g0.conditions_at(g0.nodes_of(r))]
+        already = ("self._mode == _MODE_READ_EOF", True) in conds
+        ctx.check(already or g0.every_path_to(g0.nodes_of(r), g0.nodes_of_all(mode_sets)), r, "'no more data' is answered only with the EOF mode latched (callers never poll a finished stream again)",
+                  "_fill_buffer answers False without latching the EOF mode: the stream looks still readable, so a reader that retries on empty reads spins forever on a truncated file")
     first = [n for n in f.body if isinstance(n, ast.If) and unparse(n.test) == "self._mode == _MODE_READ_EOF"]
     ctx.check(bool(first) and isinstance(first[0].body[-1], ast.Return) and is_const(first[0].body[-1].value, False), first[0] if first else f, "once at EOF, _fill_buffer keeps answering False")
     rets = [r for r in nodes_of_type(f, ast.Return) if is_const(r.value, True)]
@@ -723,3 +735,27 @@ def mode_typestate(ctx):
         if "self._mode" in stores_to(a) and dotted(a.value) in ("_MODE_READ", "_MODE_WRITE"):
             want = "mode == 'rb'" if dotted(a.value) == "_MODE_READ" else "mode == 'wb'"
             ctx.check(cond_holds(gi.conditions_at(gi.nodes_of(a)), want, True), a, "%s iff %s" % (dotted(a.value), want))
+
+
+def no_swallow(ctx):
+    """A load that failed never returns an object: every handler of the unpickling entry points re-raises."""
+    n = 0
+    for rel, q in ((NP, "_unpickle"), (NP, "load"), (NP, "load_temporary_memmap"), (NP, "NumpyUnpickler.load_build")):
+        fn = ctx.repo.func(rel, q)
+        g = cfg_of(fn)
+        for h in [h for t in nodes_of_type(fn, ast.Try) for h in t.handlers]:
+            if q.endswith("__init__"):
+                continue
+            n += 1
+            raises = [x for s_ in h.body for x in walk_local(s_) if isinstance(x, ast.Raise)]
+            ok = bool(raises) and not g.path_exists(g.nodes_of(h), [g.exit], avoid=g.nodes_of_all(raises), strict=False)
+            ctx.check(ok, h, "%s: the `except %s` handler raises on every path" % (q, unparse(h.type) if h.type else ""),
+                      "%s: the `except %s` handler can fall through: a truncated or damaged file makes load() return %s instead of raising" % (
+                          q, unparse(h.type) if h.type else "", "None / a partial object"))
+    ctx.floor(n, 1, "handlers on the unpickling path")
+    up = ctx.repo.func(NP, "_unpickle")
+    rets = nodes_of_type(up, ast.Return)
+    ld = [a for a in nodes_of_type(up, ast.Assign) if isinstance(a.value, ast.Call) and call_name(a.value) == "unpickler.load"]
+    g = cfg_of(up)
+    ctx.check(bool(ld) and all(dotted(r.value) == ld[0].targets[0].id and g.every_path_to(g.nodes_of(r), g.nodes_of(ld[0]), skip_exc=True) for r in rets), ld[0] if ld else up,
+              "_unpickle returns exactly what unpickler.load() produced")
